@@ -236,6 +236,8 @@ def appends(run, m, F, E):
         I = Interp(m, F, E, SinkHooks(m))
         st = State()
         writer_scene(I, st)
+        if 1 not in E.sum[name]['writes'] and 1 not in E.sum[name]['frees']:
+            st.objs['DATA'].attrs['readonly'] = True        # no store of append reaches the bytes it is handed (effect summary)
         N = Lin.atom('n')
         try:
             outs = I.run(I.start(f, [PtrV('W'), PtrV('DATA'), IntV(64, N, 'u')], st))
